@@ -292,6 +292,9 @@ func run(c *core.Ctx) error {
 	if err := h.vcompile(); err != nil {
 		return err
 	}
+	if err := h.vecops(); err != nil {
+		return err
+	}
 	for _, k := range []string{"vectorized and agrees", "vectorized step", "not vectorized (missing vector)", "forced assignment observed", "compact with vectors", "vector delete"} {
 		if h.feat[k] == 0 {
 			c.Inconclusive("vacuous run: no replayed case with feature %q", k)
